@@ -170,7 +170,7 @@ def main(ctx):
                        "truncated at every offset and with 1-3 byte mutations (also through 1-byte readers); SEN seeds (comments, ' strings, "
                        "+ concatenation, token functions) x every prefix x SEN-alphabet byte x continuation; every path/filter string over a "
                        "26-symbol alphabet up to length 3 (quick) / 4 (thorough) bare and inside filter prefixes, plus mutations of 31 valid "
-                       "paths and filters; the (value kind x target kind) matrix for oj/sen Unmarshal and alt.Recompose; asm plans from the C20 "
+                       "paths and filters; the TLC-enumerated string-escape classes and number shapes of JsonValueGen (C02) in 7 contexts, every order of three \\u-class segments and every split of \\u escapes across the 4096-byte refill; every sen/mongo.go token function x 34 argument shapes on SEN parsers with AddMongoFuncs(); reused parser/tokenizer instances besides fresh ones; the (value kind x target kind) matrix for oj/sen Unmarshal and alt.Recompose; asm plans from the C20 "
                        "generator. evaluations = real calls. distinct_nontrivial = (api, input class) cells consumed by the trace "
                        "specification + determinate asm cells.")
     ctx.cov["exhaustive"] = False
